@@ -539,4 +539,53 @@ theorem new_static_congr {std : Std} {cfg : Headers} {r1 r2 : Rng Data} {st1 st2
         | err e => simp [hh] at h1
         | panic s => simp [hh] at h1
 
+/-! ### the (key, cell) pairs of a map item -/
+
+/-- key and cell of a map event -/
+def evKV : DRes (Str × Data × Pos) → Option (Str × Data)
+  | .ok (k, d, _) => some (k, d)
+  | _ => none
+
+/-- the non-empty cells of a row, each with the header of its column -/
+def kvPairs (hs : List Str) (row : List Data) : List (Str × Data) :=
+  (hs.zip row).filter fun p => !p.2.isEmpty
+
+theorem kv_aux (f : Nat → Pos) : ∀ (row : List Data) (hs pre : List Str), hs.length = row.length →
+    (row.zipIdx pre.length).filterMap (fun p =>
+      (if p.1.isEmpty then none
+       else some (DRes.ok ((pre ++ hs).getD p.2 [], p.1, f p.2))).bind evKV) = kvPairs hs row
+  | [], hs, pre, hl => by
+    have : hs = [] := List.length_eq_zero_iff.mp (by simpa using hl)
+    subst this; rfl
+  | d :: row, hs, pre, hl => by
+    cases hs with
+    | nil => simp at hl
+    | cons h hs' =>
+      have ih := kv_aux f row hs' (pre ++ [h]) (by simpa using hl)
+      simp only [List.length_append, List.length_cons, List.length_nil, Nat.zero_add,
+        List.append_assoc, List.cons_append, List.nil_append] at ih
+      have hg : (pre ++ h :: hs').getD pre.length [] = h := by
+        simp [List.getD]
+      simp only [List.zipIdx_cons, List.filterMap_cons, hg, kvPairs, List.zip_cons_cons, List.filter_cons]
+      cases hd : d.isEmpty with
+      | true => simpa [kvPairs] using ih
+      | false => simpa [kvPairs, evKV] using ih
+
+theorem mapEvents_kv (hs : List Str) (row : List Data) (pos : Pos) (hl : hs.length = row.length) :
+    (mapEvents hs (List.range row.length) row pos).filterMap evKV = kvPairs hs row := by
+  rw [mapEvents_range hs row pos hl, List.filterMap_filterMap]
+  exact kv_aux (cellPos pos) row hs [] hl
+
+theorem zip_eq_range_map (hs : List Str) (row : List Data) (hl : hs.length = row.length) :
+    hs.zip row = (List.range row.length).map fun i => (hs.getD i [], row.getD i .empty) := by
+  apply List.ext_getElem?
+  intro k
+  by_cases hk : k < row.length
+  · have hk' : k < hs.length := by omega
+    rw [List.getElem?_map, List.getElem?_range hk]
+    simp only [Option.map_some]
+    apply List.getElem?_zip_eq_some.mpr
+    simp [List.getD, List.getElem?_eq_getElem hk, List.getElem?_eq_getElem hk']
+  · rw [List.getElem?_eq_none (by simp; omega), List.getElem?_eq_none (by simp; omega)]
+
 end De
